@@ -182,6 +182,18 @@ func buildWorker(m *meta.Check) *built {
 		}
 		args = append(args, "-overlay", ov, "-tags", "verif_"+m.Overlay)
 	}
+	if repoDir != "/repo" {
+		// a scratch copy of the repository (sensitivity tests): same module graph, other paths
+		gm, err := os.ReadFile(filepath.Join(simDir, "go.mod"))
+		if err != nil {
+			die2("%v", err)
+		}
+		mf := filepath.Join(scratch, "go.mod")
+		os.WriteFile(mf, []byte(strings.ReplaceAll(string(gm), "=> /repo", "=> "+repoDir)), 0o644)
+		gs, _ := os.ReadFile(filepath.Join(simDir, "go.sum"))
+		os.WriteFile(filepath.Join(scratch, "go.sum"), gs, 0o644)
+		args = append(args, "-modfile="+mf)
+	}
 	args = append(args, "./worker/")
 	cmd := exec.Command(goBin, args...)
 	cmd.Dir = simDir
